@@ -57,7 +57,7 @@ def gen_cases(ctx):
         p = {
             "num_jobs": lo_j if (lo_j == hi_j and rng.random() < 0.5) else [lo_j, hi_j],
             "num_machines": lo_m if (lo_m == hi_m and rng.random() < 0.5) else [lo_m, hi_m],
-            "duration_range": rng.choice([[1, 99], [1, 1], [5, 5], [0, 3], [10, 20]]),
+            "duration_range": rng.choice([[1, 99], [1, 1], [5, 5], [0, 3], [10, 20], [0, 0], [0, 1]]),
             "allow_less_jobs_than_machines": not flag,
             "allow_recirculation": rng.random() < 0.4,
             "machines_per_operation": 1,
@@ -283,6 +283,18 @@ def run_case(ctx, case):
         if len(set(nm6)) != len(nm6):
             ctx.violation("c19_name_reused", {"params": p, "names": nm6,
                                               "where": "second pass over the same generator"})
+        # direct generate() calls in the body of the loop do not use up the iteration
+        g8 = make(p)
+        n_e = 0
+        for _ in g8:
+            n_e += 1
+            g8.generate()
+            if n_e > p["iteration_limit"] + 3:
+                break
+        ctx.count("iterations_with_direct_generate_calls")
+        if n_e != p["iteration_limit"]:
+            ctx.violation("c19_iteration_count", {"params": p, "yielded": n_e,
+                                                  "where": "generate() called inside the loop body"})
         # an iteration abandoned half-way (break / next(iter(...))) followed by a new one
         g4 = make(p)
         taken = 0
